@@ -101,6 +101,58 @@ def seeded(args):
     return 0 if not unexpected else 1
 
 
+def corpus(args):
+    """for every seeded change: run the check that catches it, keep up to `per` work items that exposed it"""
+    out = {}
+    path = os.path.join(VERIF, 'corpus.json')
+    if os.path.exists(path) and not args.fresh:
+        out = json.load(open(path))
+    for d in sorted(glob.glob(os.path.join(VERIF, 'seeded', '*'))):
+        meta_p = os.path.join(d, 'meta.json')
+        if not os.path.exists(meta_p):
+            continue
+        meta = json.load(open(meta_p))
+        sid = os.path.basename(d)
+        if args.only and sid not in args.only.split(','):
+            continue
+        for prop in (meta.get('checks') or [meta['property']]):
+            scratch = tempfile.mkdtemp(prefix='jm.', dir='/tmp')
+            cf = os.path.join(scratch, 'caught.json')
+            try:
+                subprocess.run(['rsync', '-a', '--exclude', 'static', '--exclude', '__pycache__', '/repo/jesse', scratch + '/'], check=True)
+                os.makedirs(os.path.join(scratch, 'jesse', 'static'), exist_ok=True)
+                ap = subprocess.run(['patch', '-p1', '-s', '-d', scratch, '-i', os.path.join(d, 'patch.diff')], capture_output=True, text=True)
+                if ap.returncode != 0:
+                    print(sid, prop, 'PATCH-FAILED')
+                    continue
+                run_check(prop, ['--tier', args.tier, '--repo', scratch, '--no-evidence', '--no-minimise', '--quiet', '--no-corpus', '--catch-file', cf],
+                          env={'VERIF_SEED': '0'})
+                caught = json.load(open(cf)) if os.path.exists(cf) else []
+                # prefer different fingerprints
+                picked, seen = [], set()
+                for c in caught:
+                    key = tuple(c['fingerprints'][:1])
+                    if key in seen and len(picked) >= args.per:
+                        continue
+                    if key not in seen or len(picked) < args.per:
+                        picked.append({'seed': c['seed'], 'mode': c['mode'], 'from': sid})
+                        seen.add(key)
+                    if len(picked) >= args.per:
+                        break
+                lst = out.setdefault(prop, [])
+                have = {(x['seed'], x.get('mode')) for x in lst}
+                for x in picked:
+                    if x['seed'] is not None and (x['seed'], x.get('mode')) not in have:
+                        lst.append(x)
+                print(sid, prop, f'{len(caught)} exposing runs, kept {len(picked)}', flush=True)
+            finally:
+                subprocess.run(['rm', '-rf', scratch])
+    with open(path, 'w') as f:
+        json.dump(out, f, indent=1)
+    print('corpus.json:', {k: len(v) for k, v in out.items()})
+    return 0
+
+
 def main():
     ap = argparse.ArgumentParser()
     sub = ap.add_subparsers(dest='cmd', required=True)
@@ -110,8 +162,17 @@ def main():
     b = sub.add_parser('seeded')
     b.add_argument('--tier', default='quick')
     b.add_argument('--only', default=None)
+    cpar = sub.add_parser('corpus')
+    cpar.add_argument('--tier', default='quick')
+    cpar.add_argument('--per', type=int, default=3)
+    cpar.add_argument('--only', default=None)
+    cpar.add_argument('--fresh', action='store_true')
     args = ap.parse_args()
-    return determinism(args) if args.cmd == 'determinism' else seeded(args)
+    if args.cmd == 'determinism':
+        return determinism(args)
+    if args.cmd == 'corpus':
+        return corpus(args)
+    return seeded(args)
 
 
 if __name__ == '__main__':
